@@ -1,21 +1,28 @@
 """C03 — the daemon's fine-grained updates equal a full check after every edit.
 
-1. Lean: Props/C03 (`propagate_reaches_fixpoint` for every state type; `update_eq_full` for the semantic
-   instance; `findChanged_complete_partial` + the F7 witness; `changedModules_complete_partial` + the
-   stub-removal witness; `sortMessages_keeps_file_order`).
-2. Tie at two levels, on the same generated edit histories (harness/c03/gen.py construct × edit-kind scenarios,
-   harness/vlib/buildsim.py module-structure edits, scripted witnesses), one worker process per history
-   (harness/c03/worker.py: a real in-process `dmypy_server.Server` + a fresh non-incremental `build.build`):
+1. Lean: Props/C03 (`propagate_reaches_fixpoint` for every state type; `closure_exact`; `update_eq_full` for the
+   semantic instance relative to H_complete, `not_update_eq_full_without_depsComplete`; `updateG_sem`;
+   `findChanged_complete_partial` + the F7 witness; `changedModules_complete_partial` + the stub-removal
+   witness; `sortMessages_keeps_file_order`).
+2. Tie at two levels, on the same generated edit histories (harness/c03/gen.py construct × edit-kind scenarios —
+   packed sweeps over every scenario × variant plus random walks —, harness/vlib/buildsim.py module-structure
+   edits, scripted witnesses), one worker process per history (harness/c03/worker.py: a real in-process
+   `dmypy_server.Server`; the full builds run in a child process so that no interpreter state is shared):
    (i)  algorithm — every call of `propagate_changes_using_dependencies` is observed from outside (real `deps`
         map, triggers, `lookup_target` / `module_prefix` results, what each `reprocess_nodes` call fired) and
-        replayed by Driver/C03 on the *model's* `propagate`: same reprocessed-target sequence, same
-        `remaining_modules`, same stale protocols, same outcome.  Plus the real `FileSystemWatcher._find_changed`
-        and `Server._find_changed` against Model/FsWatch on random stat/hash scripts.
-   (ii) output — daemon `check` after every edit vs the full build on the same files: same messages per file in
-        the same order, same status; follow-imports normal / skip / error.
+        replayed by Driver/C03 on the *model's* `propagate` (`P` lines): same reprocessed-target sequence, same
+        `remaining_modules`, same stale protocols, same outcome.  Every whole `FineGrainedBuildManager.update`
+        call without blocker / newly discovered modules is replayed on the model's `updateG` (`U` lines): same
+        `update_module` order, same reprocess sequence across its propagate calls, same
+        `previous_targets_with_errors` afterwards.  Plus the real `FileSystemWatcher._find_changed` and
+        `Server._find_changed` against Model/FsWatch on random stat/hash scripts (`W`, `M` lines).
+   (ii) output — daemon `check` / `recheck` after every edit vs a fresh non-incremental `build.build` on the same
+        files: same messages per file in the same order, same status; follow-imports normal / skip / error.
 3. Search = the property's own oracle (ii).  A level-(i) difference alone is not a violation: the output
    oracle is evaluated on that history and on a batch of extra histories; a concrete daemon ≠ full step is
    reported with the edit history as replay, otherwise `no-failing-input-found`.
+A daemon/full difference is partitioned line by line (`explain`) into parts that match a listed known finding;
+anything left over is a VIOLATION.
 """
 from __future__ import annotations
 
@@ -205,16 +212,19 @@ def is_note(line: str) -> bool:
     return bool(NOTE_RE.match(line))
 
 
-# (scenario, a variant of the defining module the instance was in earlier, name of the shape):
+# (scenario, predicate on the list of variants the defining module went through (last = current), name of the shape):
 # the daemon misses errors of the using modules after a later variant change
 MISSING_DEP_SHAPES = [
-    # the attribute did not exist in the base class when the subclass' module was analysed: deps.py adds
-    # <Base.x> -> <Sub.x> only for names present in the base at that time, and adding x does not reprocess the subclass
-    ("inherited-attr", 2, "attribute-added-to-base-after-subclass-was-analysed"),
-    ("self-type", 2, "attribute-added-to-base-after-subclass-was-analysed"),     # the same, for `self.attr = …` in a base method
+    # deps.py generates the inheritance edges <Base.x> -> <Sub.x> (process_type_info) only when the subclass' module is
+    # processed as a whole, for the names its bases have at that moment; reprocessing the module top level
+    # (get_dependencies_of_target skips ClassDefs) does not regenerate them.  After two or more changes of the set of
+    # attributes the base chain defines (x: absent / in Base / in Root; self.attr: absent / in __init__ / in setup)
+    # a later change of the attribute no longer reaches the users of Sub().x
+    ("inherited-attr", lambda hist: len(hist) >= 3, "base-class-attributes-changed-after-subclass-module-was-analysed"),
+    ("self-type", lambda hist: len(hist) >= 3, "base-class-attributes-changed-after-subclass-module-was-analysed"),
     # the name was a variable of declared type Any (valid as a type, analysed to Any): no dependency on the name
     # is recorded for the annotation that used it
-    ("class-kind", 5, "annotation-resolved-to-any-typed-variable"),
+    ("class-kind", lambda hist: 5 in hist[:-1], "annotation-resolved-to-any-typed-variable"),
 ]
 
 
@@ -262,8 +272,8 @@ def explain(diff: list[str], dm: dict, fm: dict, hist_state: dict) -> tuple[list
     # (f) missing dependency edges that depend on the variants a construct scenario went through earlier
     if minus and hist_state.get("variants") and hist_state.get("scenario_history"):
         for idx, ent in hist_state["variants"].items():
-            for scen, earlier, shape in MISSING_DEP_SHAPES:
-                if ent["scenario"] == scen and earlier in ent["hist"][:-1]:
+            for scen, pred, shape in MISSING_DEP_SHAPES:
+                if ent["scenario"] == scen and pred(ent["hist"]):
                     mine = [l for l in minus if re.match(r"^[a-z]+" + idx + r"(\.pyi?|/)", l)]
                     if mine:
                         obs.append({"class": "missing-dependency", "scenario": scen, "shape": shape})
@@ -312,17 +322,25 @@ def step_events(prev_files: dict | None, files: dict, edits: list[dict], hist_st
     if prev_files is None:
         return
     for rel in prev_files:
-        if rel not in files and rel.endswith(".py") and "/" in rel and not rel.endswith("__init__.py"):
-            pkg_init = rel.rsplit("/", 1)[0] + "/__init__.py"
-            if pkg_init in files:
-                hist_state["deleted_submodules"].add(rel[:-3].replace("/", "."))
+        if rel not in files and rel.endswith(".py") and "/" in rel:
+            # a module (or a whole sub-package) deleted below a package that remains
+            stem = rel[:-3]
+            if stem.endswith("/__init__"):
+                stem = stem[:-9]
+            anc = stem
+            while "/" in anc:
+                anc = anc.rsplit("/", 1)[0]
+                if anc + "/__init__.py" in files:
+                    hist_state["deleted_submodules"].add(stem.replace("/", "."))
+                    break
         if rel.endswith(".pyi") and rel not in files:
             src = rel[:-1]
             if src in files and prev_files.get(src) == files[src]:
                 hist_state["stub_removed"].append(rel)
     for rel in files:
         if rel.endswith(".py") and "/" in rel:
-            hist_state["deleted_submodules"].discard(rel[:-3].replace("/", "."))
+            stem = rel[:-3][:-9] if rel.endswith("/__init__.py") else rel[:-3]
+            hist_state["deleted_submodules"].discard(stem.replace("/", "."))
     old_imports = set(re.findall(r"^\s*(?:import|from)\s+([\w.]+)", "\n".join(prev_files.values()), re.M))
     for rel, text in files.items():
         if prev_files.get(rel) != text:
@@ -866,7 +884,8 @@ def main(ctx: Ctx) -> None:
                             "observed propagate call replayed on the model (traces_validated_against_impl).")
     proved = ctx.prove("MypyVerif.Props.C03", MODEL_FILES)
     ctx.trusted("model: Model/FineGrained.lean (find_targets_recursive, the targets_with_errors loop, todo ordering, the MAX_ITER loop, "
-                "sort_messages_preserving_file_order; update / update_module / errors.reset for the semantic instance) and Model/FsWatch.lean; "
+                "FineGrainedBuildManager.update as `updateG` (module loop, final pass over the targets with errors), "
+                "sort_messages_preserving_file_order; update_module / errors.reset for the semantic instance) and Model/FsWatch.lean; "
                 "lookup_target, module_prefix, reprocess_nodes, deps.py, astdiff.py, astmerge.py, aststrip.py are parameters of the model "
                 "(observed tables at level (i); H_complete / ReprocessSpec at the level of the theorems)",
                 "correspondence harness harness/c03/{run,worker,gen}.py + harness/vlib/buildsim.py; the tracer wraps four module-level "
